@@ -320,6 +320,10 @@ def _mk_if(c, t, e):
         return ("early", [(c, t)], e)
     if t == ("lit", True) and e == ("lit", False):
         return c
+    if t == ("lit", False) and e == ("lit", True):
+        return _not(c)
+    if t == e and t[0] == "lit":
+        return t
     if e == ("lit", False):
         return ("op", "&&", [c, t])
     if e == ("lit", True):
@@ -926,10 +930,104 @@ class Norm:
             parts.append(inner)
         return ("call", "vec+", parts)
 
+    def _group_same_head(self, scr, arms):
+        """consecutive arms on the same one-field variant are one arm deciding on the payload:
+             H(x) if g => a, H(_) => b        ==  H(x) => if g { a } else { b }
+             H(Sub) => a, H(_) => b           ==  H(x) => match x { Sub => a, _ => b }
+           (only when the run ends in an irrefutable, unguarded arm, so nothing falls through to later arms)"""
+        def head(p):
+            m = re.fullmatch(r"([A-Za-z_][\w:]*)\((.*)\)", p)
+            if not m or len(_split_top(m.group(2), ",")) != 1 or len(_split_top(p, "|")) != 1:
+                return None
+            return m.group(1), m.group(2)
+        out, i, changed = [], 0, False
+        while i < len(arms):
+            h = head(arms[i][0])
+            j = i + 1
+            if h is not None:
+                while j < len(arms) and (head(arms[j][0]) or (None,))[0] == h[0]:
+                    j += 1
+            run = arms[i:j]
+            if h is None or len(run) < 2:
+                out.extend(run)
+                i = j
+                continue
+            subs = [head(p)[1] for p, _g, _b in run]
+            irref = [bool(re.fullmatch(r"[$_(),]*", x)) and x != "" for x in subs]
+            last_ok = irref[-1] and run[-1][1] is None
+            payload = ("proj", scr, h[0], "0")
+            if last_ok and all(irref):
+                body = run[-1][2]
+                for _p, g, b in reversed(run[:-1]):
+                    if g is None:       # an unguarded irrefutable arm shadows what follows
+                        body = b
+                    else:
+                        body = _mk_if(g, b, body)
+                out.append((h[0] + "($)", None, body))
+                changed = True
+            elif last_ok and all(g is None for _p, g, _b in run):
+                out.append((h[0] + "($)", None, self._canon_match(payload, [(x, None, b) for x, (_p, _g, b) in zip(subs, run)])))
+                changed = True
+            else:
+                out.extend(run)
+            i = j
+        return out if changed else None
+
+    def _opt_tuple_tree(self, scr, arms):
+        """match (a, b) { (None, None) => x, (None, Some(_)) => y, (Some(_), _) => z }  is the decision tree on `a`, then on `b`
+        (first-match order is kept inside each branch; arm bodies name the payloads by projection, never by pattern)"""
+        if scr[0] != "tup" or len(scr[1]) < 2 or any(g is not None for _p, g, _b in arms):
+            return None
+        n = len(scr[1])
+        rows = []
+        for p, _g, b in arms:
+            if p in ("_", "$"):
+                comps = ["_"] * n
+            else:
+                if not (p.startswith("(") and p.endswith(")")):
+                    return None
+                comps = _split_top(p[1:-1], ",")
+                if len(comps) != n:
+                    return None
+            rows.append((comps, b))
+        kinds = []
+        for comps, _b in rows:
+            c = comps[0]
+            if c in ("_", "$"):
+                kinds.append("any")
+            elif c in ("v1::None", "Option::None"):
+                kinds.append("none")
+            elif re.fullmatch(r"(v1|Option)::Some\([$_(),]*\)", c):
+                kinds.append("some")
+            else:
+                return None
+        if "some" not in kinds and "none" not in kinds:
+            return None
+
+        def branch(which):
+            sub = [(comps[1:], b) for (comps, b), k in zip(rows, kinds) if k in (which, "any")]
+            if not sub:
+                return None
+            if all(c in ("_", "$") for c in sub[0][0]):
+                return sub[0][1]
+            rest_scr = scr[1][1] if n == 2 else ("tup", list(scr[1][1:]))
+            sub_arms = [(comps[0] if n == 2 else "(" + ",".join(comps) + ")", None, b) for comps, b in sub]
+            return self._canon_match(rest_scr, sub_arms)
+        then, els = branch("some"), branch("none")
+        if then is None or els is None:
+            return None
+        return _mk_iflet("v1::Some($)", scr[1][0], then, els)
+
     def _canon_match(self, scr, arms):
         """two-arm option-like matches become if-let; arms without guards are sorted by pattern (catch-all last)"""
         if len(arms) == 1:
             return ("match", scr, arms)
+        tree = self._opt_tuple_tree(scr, arms)
+        if tree is not None:
+            return tree
+        grouped = self._group_same_head(scr, arms)
+        if grouped is not None:
+            return self._canon_match(scr, grouped)
         if len(arms) == 2 and all(g is None for _p, g, _b in arms):
             (p1, _g1, b1), (p2, _g2, b2) = arms
             catch = ("_", "$", "v1::None", "Option::None")
@@ -937,6 +1035,14 @@ class Norm:
                 return self._iflet(p1, scr, b1, b2)
             if p1 in ("v1::None", "Option::None") and p2 not in catch:
                 return self._iflet(p2, scr, b2, b1)
+        if len(arms) == 2 and arms[0][1] is not None and arms[1][1] is None and arms[1][0] in ("_", "$") and arms[1][2] == ("lit", False) \
+                and arms[0][0] not in ("_", "$"):
+            # match x { P if g => b, _ => false }  ==  matches!(x, P if g) && b
+            c = ("op", "&&", [_let(arms[0][0], scr), arms[0][1]])
+            return c if arms[0][2] == ("lit", True) else ("op", "&&", [c, arms[0][2]])
+        if len(arms) == 2 and arms[0][1] is not None and arms[1][1] is None and arms[1][0] in ("_", "$") and arms[0][0] not in ("_", "$"):
+            # match x { P if g => a, _ => b }  ==  if matches!(x, P if g) { a } else { b }
+            return _mk_if(("op", "&&", [_let(arms[0][0], scr), arms[0][1]]), arms[0][2], arms[1][2])
         if len(arms) >= 2 and all(g is None for _p, g, _b in arms) and arms[0][2][0] == "call" and arms[0][2][1] in ("Some", "Ok") and len(arms[0][2][2]) == 1 \
                 and all(b[0] == "call" and b[1] == arms[0][2][1] and len(b[2]) == 1 for _p, _g, b in arms):
             # match x { A => Some(a), B => Some(b) }  ==  Some(match x { A => a, B => b })
@@ -965,6 +1071,14 @@ class Norm:
             for x in alts[1:]:
                 r = ("op", "||", [r, x])
             return r
+        if order_free and any(b == ("lit", True) for _p, _g, b in arms) and not any(b == ("lit", False) for _p, _g, b in arms) \
+                and all(b == ("lit", True) for p, _g, b in arms if p in ("_", "$")):
+            # boolean match whose other arms are `true`: the conjunction of (not this arm, or its value)
+            r = None
+            for p, _g, b in sorted([a for a in arms if a[2] != ("lit", True)], key=lambda a: a[0]):
+                x = ("op", "||", [_not(_let(p, scr)), b])
+                r = x if r is None else ("op", "&&", [r, x])
+            return r if r is not None else ("lit", True)
         if order_free:
             last = [a for a in arms if a[0] in ("_", "$")]
             rest = [a for a in arms if a[0] not in ("_", "$")]
@@ -1482,6 +1596,16 @@ class Norm:
                 return ("call", "Entry::or_default", [recv])
             if name == "Entry::or_insert" and len(args) == 1 and args[0] == ("call", "Default::default", []):
                 return ("call", "Entry::or_default", [recv])
+            if name == "Option::or_else" and len(args) == 1 and args[0][0] == "closure" and args[0][2] == 0:
+                # o.or_else(|| y)  ==  if o is Some { Some(payload of o) } else { y }
+                cond, payload = _opt_body(recv)
+                if cond is not None:
+                    return _mk_if(cond, ("call", "Some", [payload]), _apply(args[0], None))
+            if name == "Option::and_then" and len(args) == 1 and args[0][0] == "closure" and args[0][2] == 1:
+                # o.and_then(|v| g(v))  ==  if o is Some { g(payload of o) } else { None }
+                cond, payload = _opt_body(recv)
+                if cond is not None:
+                    return _mk_if(cond, _apply(args[0], payload), ("def", "v1::None"))
             if name == "Option::unwrap_or" and len(args) == 1:
                 return _mk_iflet("v1::Some($)", recv, _proj_some(recv), args[0])
             if name == "Option::unwrap_or_else" and len(args) == 1 and args[0][0] == "closure" and args[0][2] == 0:
@@ -1562,7 +1686,9 @@ class Norm:
                 args = []   # the message text is not part of the term
             return ("call", name, [recv] + args)
         if k == "Block":
+            del _TRY_SUBS[:]
             r = self._block_term(e)
+            subs = list(_TRY_SUBS)
             # `let x = f()?;` leaves the block when f() fails even if x is never used afterwards (or only in an erased position)
             pend = []
             for st in e["b"]["stmts"]:
@@ -1570,6 +1696,8 @@ class Norm:
                     si = strip(st["init"])
                     if si.get("k") == "Match" and str(si.get("src", "")).startswith("TryDesugar"):
                         pt = self._t(st["init"])
+                        for src, dst in subs:
+                            pt = rewrite(pt, lambda n, src=src, dst=dst: dst if n == src else None)
                         if pt[0] == "try" and not any(x == pt or x == pt[1] for x in subterms(r)) and pt not in pend:
                             pend.append(pt)
             if pend:
@@ -1753,16 +1881,37 @@ def _mk_iflet(pat, scr, then, els):
 
 
 
+def _rets(b):
+    return b[0] == "ret" or (b[0] == "seq" and b[2][0] == "ret")
+
+
 def _ret_chain(early, tail):
-    """the trailing run of `if c { return v }` guard clauses of a return block becomes an if / else chain over what follows;
-    clauses before an entry that cannot be converted (a match statement with returning arms) stay guard clauses"""
+    """the trailing run of `if c { return v }` guard clauses of a return block becomes an if / else chain over what follows; a
+    match statement whose arms either return or fall through (`=> {}`) becomes the match whose falling-through arms carry what
+    follows. Clauses before an entry that cannot be converted stay guard clauses"""
+    def convertible(c, v):
+        if c == ("lit", "match"):
+            return v[0] == "match" and all(g is None and (_rets(b) or _is_unit(b)) for _p, g, b in v[2])
+        return v[0] == "ret"
     k = len(early)
-    while k > 0 and early[k - 1][1][0] == "ret" and early[k - 1][0] != ("lit", "match"):
+    while k > 0 and convertible(*early[k - 1]):
         k -= 1
     pre, suf = list(early[:k]), list(early[k:])
-    if suf:
-        suf, tail = _guards_to_try(suf, tail)
-        tail = _unreturn(("early", suf, tail)) if suf else tail
+
+    def finish(run, rest):
+        if run:
+            run, rest = _guards_to_try(run, rest)
+            rest = _unreturn(("early", run, rest)) if run else rest
+        return rest
+    run = []
+    for c, v in reversed(suf):
+        if c == ("lit", "match"):
+            tail = finish(run, tail)
+            run = []
+            tail = ("match", v[1], [(p, g, _unreturn(b) if _rets(b) else tail) for p, g, b in v[2]])
+        else:
+            run.insert(0, (c, v))
+    tail = finish(run, tail)
     tail = _opt_chain(tail)
     return ("early", pre, tail) if pre else tail
 
@@ -1802,7 +1951,11 @@ def _guards_to_try(early, tail):
                 subs.append((payload, ("try", X)))
                 continue
         out.append((c, v))
+    _TRY_SUBS.extend(subs)
     return out, sub_all(tail)
+
+
+_TRY_SUBS = []      # the let-else rewrites of the block being normalised (read by the unused `let x = f()?` rule of the same block)
 
 
 def _unreturn(t):
@@ -2185,33 +2338,35 @@ def _has_loop_exit(body):
     return False
 
 
+def _split_top(t, sep):
+    parts, depth, cur = [], 0, []
+    i = 0
+    while i < len(t):
+        ch = t[i]
+        if ch == "'":
+            j = t.find("'", i + 1)
+            j = len(t) - 1 if j < 0 else j
+            cur.append(t[i:j + 1])
+            i = j + 1
+            continue
+        if ch in "([{":
+            depth += 1
+        elif ch in ")]}":
+            depth -= 1
+        if ch == sep and depth == 0:
+            parts.append("".join(cur))
+            cur = []
+        else:
+            cur.append(ch)
+        i += 1
+    parts.append("".join(cur))
+    return parts
+
+
 def _pat_parse(s):
     """pattern string (pat_repr) -> tree: ('wild',) | ('alt', [trees]) | ('node', head, [children]) ; None when not understood"""
-    def split_top(t, sep):
-        parts, depth, cur = [], 0, []
-        i = 0
-        while i < len(t):
-            ch = t[i]
-            if ch == "'":
-                j = t.find("'", i + 1)
-                j = len(t) - 1 if j < 0 else j
-                cur.append(t[i:j + 1])
-                i = j + 1
-                continue
-            if ch in "([{":
-                depth += 1
-            elif ch in ")]}":
-                depth -= 1
-            if ch == sep and depth == 0:
-                parts.append("".join(cur))
-                cur = []
-            else:
-                cur.append(ch)
-            i += 1
-        parts.append("".join(cur))
-        return parts
     s = s.strip()
-    alts = split_top(s, "|")
+    alts = _split_top(s, "|")
     if len(alts) > 1:
         ts = [_pat_parse(a) for a in alts]
         return None if any(t is None for t in ts) else ("alt", ts)
@@ -2228,7 +2383,7 @@ def _pat_parse(s):
             inner = s[i + 1:-1]
             kids = []
             if inner:
-                for part in split_top(inner, ","):
+                for part in _split_top(inner, ","):
                     if o == "{" and ":" in part:
                         fname, _sep, sub = part.partition(":")
                         t = _pat_parse(sub)
@@ -2237,7 +2392,7 @@ def _pat_parse(s):
                         kids.append(_pat_parse(part))
             if any(k is None for k in kids):
                 return None
-            if o == "[" and any(k == ("wild",) and p.strip() == ".." for k, p in zip(kids, split_top(inner, ","))):
+            if o == "[" and any(k == ("wild",) and p.strip() == ".." for k, p in zip(kids, _split_top(inner, ","))):
                 return None          # slice patterns with a rest: not analysed
             return ("node", head, kids)
     return ("node", s, [])
